@@ -336,8 +336,14 @@ namespace bloch::cli {
                                       << " | " << std::setw(5) << "prob"
                                       << "\n";
                             std::cout << std::string(outcomeWidth, '-') << "-+-------+-----\n";
+                            // An outcome's probability is its share of this variable's records.
+                            // Dividing by the shot count is only right when the variable leaves
+                            // scope exactly once per shot (a loop-scoped qubit printed 3.000).
+                            long total = 0;
+                            for (const auto& p : vals) total += p.second;
                             for (auto& p : vals) {
-                                double prob = static_cast<double>(p.second) / shots;
+                                double prob =
+                                    total > 0 ? static_cast<double>(p.second) / total : 0.0;
                                 std::cout << std::left << std::setw(static_cast<int>(outcomeWidth))
                                           << p.first << " | " << std::right << std::setw(5)
                                           << p.second << " | " << std::setw(5) << prob << "\n";
